@@ -284,7 +284,7 @@ int main(int argc, char **argv)
   int nroots = univ_small_count();
   uint64_t idx = 0;
   struct opscope sc; memset(&sc, 0, sizeof(sc)); sc.classes = OPC_RESTRICT | OPC_GROUP; sc.max_subset_bits = MC.thorough ? 4 : 2; sc.lean = !MC.thorough;
-  mc_note("%d roots x 2 configurations, plus the states reached by one restrict or one Group insertion (asymmetric trees whose parent-child links skip levels)", nroots);
+  mc_note("%d roots x 2 configurations, plus the states reached by one or two restricts / Group insertions (asymmetric trees whose parent-child links skip levels)", nroots);
   for (int r = 0; r < nroots; r++) for (int c = 0; c < 2; c++, idx++) {
     if (!mc_mine(idx) || mc_deadline()) continue;
     struct hist h0; memset(&h0, 0, sizeof(h0)); h0.root = r; h0.cfg = c;
@@ -294,6 +294,8 @@ int main(int argc, char **argv)
     struct op *ops; int nops = ops_enumerate(t, &sc, &ops);
     hwloc_topology_destroy(t);
     struct strset seen; strset_init(&seen);
+    { hwloc_topology_t tr = hist_build(&h0); if (tr) { char *kr = canon_str(tr, CANON_STRUCT); strset_add(&seen, kr, strlen(kr)); free(kr); hwloc_topology_destroy(tr); } }   /* a refused call leaves the root: not a new state */
+    static int fresh1[4096]; int nfresh1 = 0;
     for (int i = 0; i < nops && !mc_deadline(); i++) {
       struct hist h1 = h0; h1.ops[h1.n++] = ops[i];
       hwloc_topology_t t1 = NULL;
@@ -301,7 +303,29 @@ int main(int argc, char **argv)
       if (mc_fault[0] || !t1) { mc_fault[0] = 0; mc_clear_san(); continue; }
       char *key = canon_str(t1, CANON_STRUCT); int fresh = strset_add(&seen, key, strlen(key)); free(key);
       if (fresh && mc_case("%s", hist_text(&h1))) one_topology(t1);
+      if (fresh && nfresh1 < 4096) fresh1[nfresh1++] = i;
       hwloc_topology_destroy(t1);
+    }
+    /* second step from every distinct depth-1 state (a Group inside a restricted topology, a restrict of a topology with an
+     * inserted Group, two Groups): the helpers are read-only, every distinct tree shape is one more input */
+    for (int f = 0; f < nfresh1 && !mc_deadline() && !getenv("C09_NODEPTH2"); f++) {
+      struct hist h1 = h0; h1.ops[h1.n++] = ops[fresh1[f]];
+      hwloc_topology_t t1 = NULL;
+      if (MC_TRY(30000)) { t1 = hist_build(&h1); mc_try_end(); }
+      if (mc_fault[0] || !t1) { mc_fault[0] = 0; mc_clear_san(); continue; }
+      struct op *ops2; int nops2 = ops_enumerate(t1, &sc, &ops2);
+      hwloc_topology_destroy(t1);
+      for (int j = 0; j < nops2 && !mc_deadline(); j++) {
+        struct hist h2 = h1; h2.ops[h2.n++] = ops2[j];
+        hwloc_topology_t t2 = NULL;
+        if (MC_TRY(30000)) { t2 = hist_build(&h2); mc_try_end(); }
+        if (mc_fault[0] || !t2) { mc_fault[0] = 0; mc_clear_san(); continue; }
+        char *k2 = canon_str(t2, CANON_STRUCT); int fresh2 = strset_add(&seen, k2, strlen(k2)); free(k2);
+        mc_count("depth2_histories", 1);
+        if (fresh2 && mc_case("%s", hist_text(&h2))) { one_topology(t2); mc_count("depth2_states", 1); }
+        hwloc_topology_destroy(t2);
+      }
+      free(ops2);
     }
     free(ops); strset_free(&seen);
     if (idx % 7 == 0) mc_sample("%s : every helper x every argument of the small domains", hist_text(&h0));
